@@ -20,7 +20,7 @@ Pool(n) ==
          \cup {Struct(<<>>), Enum(<<"one">>), Enum(<<"one", "two", "three">>)}
          \cup {Struct(<<Fld("type", Plain("int")), Fld("b_2", t)>>) : t \in Base}
 
-Docs == {"none", "one", "multi", "crlf", "tabcont", "u2028"}
+Docs == {"none", "one", "multi", "crlf", "tabcont", "u2028", "ctlend"}
 
 Member(k, n, doc, a, b) == [k |-> k, n |-> n, doc |-> doc, a |-> a, b |-> b]
 NoType == Struct(<<>>)
@@ -47,7 +47,7 @@ Templates(i) ==
                   Struct(<<Fld("r", Dict(Plain("bool")))>>)) }
     \cup { Member("type", "T", d, Struct(<<Fld("x", Plain("float")), Fld("y", Struct(<<Fld("z", Plain("int"))>>))>>), NoType) : d \in {"none", "crlf"} }
     \cup { Member("type", "T", "tabcont", Enum(<<"alpha", "beta", "gamma">>), NoType), Member("type", "T", "none", Struct(<<>>), NoType) }
-    \cup { Member("error", "E", d, Struct(<<>>), NoType) : d \in {"none", "u2028"} }
+    \cup { Member("error", "E", d, Struct(<<>>), NoType) : d \in {"none", "u2028", "ctlend"} }
     \cup { Member("error", "E", "one", Struct(<<Fld("reason", Plain("string")), Fld("code", Plain("int"))>>), NoType) }
 
 \* member i of a sequence gets the index i appended to its name by the harness (names are therefore distinct)
